@@ -104,8 +104,9 @@ pub fn run(rep: &mut Report, thorough: bool) {
         let shm_dir = ShmDir(format!("/dev/shm/vh-c08-{}-{ti}", std::process::id()));
         let nfiles = if ti == 0 { 0 } else { rng.range(1, if thorough { 12 } else { 6 }) as usize };
         for k in 0..nfiles {
+            // (both ELF classes: a 64-bit process can map 32-bit images - emulators, tools that
+            // inspect foreign objects)
             let mut spec = ElfSpec::random(&mut rng);
-            spec.bits64 = true;
             // an image linked at a non-zero base (classic non-PIE executable, prelinked library):
             // p_vaddr != p_offset for every segment
             if rng.chance(1, 4) {
